@@ -118,8 +118,15 @@ def fs_path(a):
 
 def released_oracle(ops, res):
     """'a filesystem socket path is removed again when the service is shut down', read directly off the history"""
-    current, released = None, set()
+    current, released, running = None, set(), False
     for o, r in zip(ops, res):
+        if o[0] in ("start", "listen") and r == "ok":
+            running = True
+        elif o[0] in ("stop", "shutdown") and r == "stopped":
+            running = False
+        if o[0] in ("bind", "listen") and o[2] and fs_path(o[1]) is not None and r == "err" and not running:
+            # a filesystem path in an existing directory can always be bound: a socket file left over from an earlier run is replaced
+            return "%s(%r) failed although the path is well-formed and nothing but a stale socket file can be in the way" % (o[0], o[1])
         if o[0] in ("bind", "listen") and r == "ok":
             current = fs_path(o[1])
             released.discard(current)
